@@ -330,6 +330,9 @@ class OptionAlphabet:
                 vals.append(rng.choice(pool))
             else:
                 vals.append(rng.choice(self.STR_VALUES))
+        if len(vals) == 1 and rng.random() < 0.12:
+            # argparse's other spelling of a long option with one value
+            return [o["opt"] + "=" + vals[0]]
         return [o["opt"]] + vals
 
     def gen_argv(self, rng, nmax=6, exclude=()):
@@ -600,6 +603,13 @@ class C18(Check):
         """values a user would write into a JSON config for these options"""
         out = {}
         by_opt = {o["opt"]: o for o in alpha.options}
+        flat = []
+        for t in argv:
+            if t.startswith("--") and "=" in t and t.split("=", 1)[0] in by_opt:
+                flat += t.split("=", 1)
+            else:
+                flat.append(t)
+        argv = flat
         i = 0
         while i < len(argv):
             o = by_opt[argv[i]]
@@ -906,7 +916,8 @@ class C18(Check):
         direct = results[2]["namespace"]
         by_dest = {o["dest"]: o for o in alpha.options}
         for o in alpha.options:
-            if o["opt"] in op["argv"]:
+            if o["opt"] in op["argv"] or any(
+                    t.startswith(o["opt"] + "=") for t in op["argv"]):
                 if o["kind"] == "int":
                     sim.probe("generate_int_option")
                 if o["n"] > 1:
@@ -914,6 +925,8 @@ class C18(Check):
         if any(t.startswith("-") and not t.startswith("--")
                for t in op["argv"]):
             sim.probe("generate_negative_number")
+        if any(t.startswith("--") and "=" in t for t in op["argv"]):
+            sim.probe("generate_equals_form")
         for k in sorted(set(direct) | set(via_cfg)):
             if k == "config":
                 continue
